@@ -113,6 +113,7 @@ func c19Run(c *Ctx) {
 	if c.Thorough() {
 		layers = append(layers, sweepLayer{"L2", GenOpts{OneGate: true, LeafSet: 2}, 2, nil})
 	}
+	layers = append(layers, sweepLayer{"scale", GenOpts{Scale: true, ScaleThorough: c.Thorough()}, 0, nil})
 	check := func(line, desc string, rank int64, replay map[string]any, fsets []Flags) {
 		for _, fl := range fsets {
 			fl.Apply()
